@@ -9,6 +9,7 @@ import p_upload
 import p_peerfsm
 import p_live
 import p_crypto
+import p_webseed
 
 HOOK_COMMITS = ["ad8b203", "23d7fe8", "8de280d", "16a7335", "4ddeda5"]
 
@@ -35,6 +36,13 @@ REGISTRY = {
                      "established mode vs both policies, agreement, payload visibility on the tapped wire, transparency. crypto.Conn.Write is driven with scripted underlying "
                      "writes; the wire must decrypt (independent key derivation + RC4) to a prefix of the plaintext and stay silent after the first failure.",
             "note": "Trusted: TLC, the harness's MSE implementation."},
+    "C14": {"run": p_webseed.run, "design": "DESIGN.md section 3 C14",
+            "technique": "TLC-checked declarative FileChunks operator and writer state machine (Webseed.tla) + case tables executed on tor.fileChunks, tor.NewWriter, GetRight.Get (scripted local HTTP server) and the full maybeWebseed path of a running torrent",
+            "level": "FileChunks is specified declaratively and TLC checks it tiles every range; 242 layout/range cases (x padding variants) run on the real fileChunks with a model-free "
+                     "tiling oracle. The writer model (whole blocks, clipping, release accounting) is model-checked; ~1100 stream-split cases run on the real writer with the store "
+                     "inspected block by block and TorData+TorDrop summed. 16 server behaviours x 5 ranges run through GetRight.Get with a recording writer. Running torrents fetch "
+                     "from a local web seed (3 layouts x 3 server modes): stored blocks must be the right bytes and inFlight must return to zero.",
+            "note": "Trusted: TLC, the scripted HTTP server, mktor/content."},
     "C10": {"run": p_live.run_c10, "design": "DESIGN.md section 3 C10",
             "technique": "TLC exhaustive model checking of Requests.tla + simulated behaviours executed on a running torrent (loop gate + yield hook)",
             "level": "Requests.tla (two-step Torrent.Request, FIFO loop, Flip before its TorHave, eviction, withdrawals) is model-checked exhaustively "
